@@ -120,6 +120,22 @@ def irToJson (ir : IR) : Json :=
     ("params", Json.arr (ir.params.map fun (k, p) => Json.arr #[Json.str (String.ofList k), paramToJson p]).toArray),
     ("returns", match ir.returns with | some r => paramToJson r | none => Json.null)]
 
+def addArgToJson (a : ArgAttr.AddArg) : Json :=
+  let os (x : Option Str) : Json := match x with | some s => Json.str (String.ofList s) | none => Json.null
+  Json.mkObj [("type", os a.typ),
+    ("choices", match a.choices with | some ms => Json.arr (ms.map fun m => Json.str (String.ofList m)).toArray | none => Json.null),
+    ("action", os a.action), ("help", os a.help), ("required", Json.bool a.required),
+    ("default", match a.default with | some v => valToJson v | none => Json.null)]
+
+def addArgOfJson (j : Json) : ArgAttr.AddArg :=
+  { typ := optStr j "type",
+    choices := match j.getObjVal? "choices" with
+      | .ok (Json.arr a) => some (a.toList.filterMap fun x => match x with | Json.str s => some s.toList | _ => none)
+      | _ => none,
+    action := optStr j "action", help := optStr j "help",
+    required := (j.getObjValAs? Bool "required").toOption.getD false,
+    default := match j.getObjVal? "default" with | .ok dj => (valOfJson dj).toOption | _ => none }
+
 def step (line : String) : String :=
   match Json.parse line with
   | .error e => "{\"bad\":\"" ++ e ++ "\"}"
@@ -198,6 +214,16 @@ def step (line : String) : String :=
       let out := Sig.pairArgs (strs "args") (opts "defaults") ++ Sig.pairArgs (strs "kwonly") (opts "kw_defaults")
       (Json.mkObj [("ok", Json.arr (out.map fun (n, d) =>
         Json.arr #[Json.str n, match d with | some t => Json.str t | none => Json.null]).toArray)]).compress
+    | .ok "param2argparse" =>
+      let pr := paramOfJson ((j.getObjVal? "param").toOption.getD Json.null)
+      let nm := (optStr j "name").getD []
+      let emit := (j.getObjValAs? Bool "emit").toOption.getD true
+      (resJson (ArgAttr.param2argparse nm pr emit) addArgToJson).compress
+    | .ok "parse_out_param" =>
+      let a := addArgOfJson ((j.getObjVal? "call").toOption.getD Json.null)
+      let emit := (j.getObjValAs? Bool "emit").toOption.getD false
+      let rd := (j.getObjValAs? Bool "require_default").toOption.getD false
+      (resJson (ArgAttr.parseOutParam a rd emit) paramToJson).compress
     | .ok "func_attr" =>
       let pr := paramOfJson ((j.getObjVal? "param").toOption.getD Json.null)
       (resJson (FuncAttr.funcRT pr) fun r =>
